@@ -69,7 +69,13 @@ struct GenRun {
 type Script = Vec<(String, u64, usize, Vec<usize>)>;
 
 fn gen_with(src: &str, sm: bool, script: Script) -> GenRun {
-    verif_hooks::seam_reset(script.into_iter().map(|(site, fingerprint, occurrence, perm)| verif_hooks::SeamScript { site, fingerprint, occurrence, perm }).collect());
+    gen_mode(src, sm, script, true)
+}
+
+/// canonical = every seam call without a script entry is put into sorted order (the explorer owns
+/// the nondeterminism); false = orders as the real hash seeds produce them
+fn gen_mode(src: &str, sm: bool, script: Script, canonical: bool) -> GenRun {
+    verif_hooks::seam_reset_with(script.into_iter().map(|(site, fingerprint, occurrence, perm)| verif_hooks::SeamScript { site, fingerprint, occurrence, perm }).collect(), canonical);
     let g = vdrive::generate(src, sm);
     let mut log = verif_hooks::seam_log();
     log.sort();
@@ -148,7 +154,7 @@ pub fn c16(a: &Args) -> Report {
         let (d, sm) = (i / 2, i % 2 == 1);
         rep.count("traces_validated_against_impl", 2);
         if !same {
-            rep.violations.push(viol("NONDETERMINISTIC", "c16", format!("{} sm={sm}", corpus[d].0), "two plain runs in one thread differ".into(), json!({"spec": corpus[d].1, "sm": sm, "script": []})));
+            rep.violations.push(viol("NONDETERMINISTIC", "c16", format!("{} sm={sm}", corpus[d].0), "two runs with every seam in canonical order differ: a hash-iteration site that is not behind a sort (nondeterminism the seams do not own)".into(), json!({"spec": corpus[d].1, "sm": sm, "script": []})));
             continue;
         }
         rep.count("states", base.log.len() as u64);
@@ -239,7 +245,7 @@ pub fn c16(a: &Args) -> Report {
             let outs: Vec<String> = (0..8)
                 .map(|_| {
                     let s = src.clone();
-                    std::thread::spawn(move || gen_with(&s, sm, vec![]).tokens)
+                    std::thread::spawn(move || gen_mode(&s, sm, vec![], false).tokens)
                 })
                 .collect::<Vec<_>>()
                 .into_iter()
@@ -624,13 +630,20 @@ pub fn replay(a: &Args, rec: &serde_json::Value) -> Report {
             let script: Script = serde_json::from_value(r["script"].clone()).unwrap_or_default();
             let src = spec.render("T", "");
             let base = gen_with(&src, sm, vec![]);
-            let other = if r["threads"].is_number() {
-                let s = src.clone();
-                std::thread::spawn(move || gen_with(&s, sm, vec![])).join().unwrap()
+            let differs = if script.is_empty() {
+                // nondeterminism the seams do not own: repeat in fresh threads (fresh hash seeds);
+                // canonical mode unless the record came from the real-seed sample
+                let canonical = !r["threads"].is_number();
+                (0..24).any(|_| {
+                    let s = src.clone();
+                    let o = std::thread::spawn(move || gen_mode(&s, sm, vec![], canonical)).join().unwrap();
+                    o.tokens != base.tokens || o.graph != base.graph
+                })
             } else {
-                gen_with(&src, sm, script)
+                let other = gen_with(&src, sm, script);
+                base.tokens != other.tokens || base.graph != other.graph
             };
-            if base.tokens != other.tokens || base.graph != other.graph {
+            if differs {
                 rep.violations.push(viol(tag, "c16", spec.short(), "output depends on iteration order".into(), json!({})));
             }
         }
